@@ -390,7 +390,9 @@ def c02_plans(tier):
 CHECKS["C02"] = make_check("C02", c02_plans,
     "all authenticity classes (bit flips in signature / key hash, text edited after signing, unknown key incl. same key name, valid checkpoint of another configured log "
     "with another key or the SAME key under another origin, no/truncated signature block, garbage) x all states of the bounded models x every log id incl. an unknown one; "
-    "renderings chosen by seed; judged by Authentic on verdict, returned bytes and stored state; distinct = distinct (pre-state, request, verdict) of update steps", any_update)
+    "renderings chosen by seed; judged by Authentic on verdict, returned bytes and stored state; distinct = distinct (pre-state, request, verdict) of update steps; the per-log verifier "
+    "comes from configuration: generated configurations (incl. an entry whose key string borrows another entry's key name and hash) go through the real Main (Trace_Start)", any_update,
+    post_all=lambda work, rep, tier, seed: __import__("checks_omni").startup_part(work, rep, tier, seed, "C02"))
 
 # ----------------------------------------------------------------------------- C04
 
